@@ -91,11 +91,12 @@ def build_spec(sc, shard_no, slot, index, rng, port_base=12000):
             last = sorted(js["tasks"][t]["outputs"])[-1]
             faults = {t: {"when": sc["when"], "how": sc["how"], "ds": f"{t}.{last}"}}
     nh, nw = sc["shape"]
-    cport = port_base + (shard_no * 8 + slot) * 40  # below the ephemeral range (32768+), or outgoing connections steal the port
-    hid = f"{shard_no:x}{index % 4096:03x}"
+    from vlib.common import ports
+    block, cport = ports.acquire()   # unique among all concurrently running checks; below the ephemeral range (32768+)
+    hid = f"b{block:03x}"
     hosts = [{"id": f"{hid}{h}", "workers": nw, "port": cport + 1 + h * 10} for h in range(nh)]
     tmp = tempfile.mkdtemp(prefix=f"v05-{hid}-")
-    spec = {"tmp": tmp, "job": js, "hosts": hosts, "cport": cport, "faults": faults, "sleeps": sleeps, "watchdog_s": 100}
+    spec = {"tmp": tmp, "job": js, "hosts": hosts, "cport": cport, "faults": faults, "sleeps": sleeps, "watchdog_s": 100, "port_block": block}
     if kill:
         spec["kill"] = kill
     return spec, sc
@@ -133,6 +134,8 @@ def run_scenario(col: Collector, sc, shard_no, slot, index, rng, port_base=12000
         os.unlink(path)
         import glob
         import shutil
+        from vlib.common import ports
+        ports.release(spec["port_block"])
         shutil.rmtree(spec["tmp"], ignore_errors=True)
         for h in spec["hosts"]:
             for s in glob.glob(f"/dev/shm/sCasc{h['id']}*") + glob.glob(f"/tmp/{h['id']}.w*.socket"):
